@@ -33,7 +33,7 @@ import (
 
 func TestMain(m *testing.M) {
 	document.SetGlobalLevel(document.LogLevelSilent)
-	kit.TestMain(m, 1600, 18000)
+	kit.TestMain(m, 1400, 18000)
 }
 
 // Case is one generated input: the foreign package, the edits between open and save, the entry points.
@@ -114,7 +114,25 @@ var bodyNeutral = map[string]bool{"header": true, "footer": true, "headerpn": tr
 var bodyRemoving = map[string]bool{"rmparaat": true, "rmelemat": true}
 
 func genCase(t *rapid.T) Case {
-	c := Case{Pkg: foreign.Gen(t), OpenFile: rapid.Bool().Draw(t, "openfile"), SaveFile: rapid.Bool().Draw(t, "savefile")}
+	var pkg foreign.Package
+	if rapid.IntRange(0, 39).Draw(t, "longbody") == 0 { // a long body: up to 72 block-level children instead of up to 6
+		pkg = foreign.GenOpt(t, foreign.Opt{MaxBlocks: 72})
+	} else {
+		pkg = foreign.Gen(t)
+	}
+	c := Case{Pkg: pkg, OpenFile: rapid.Bool().Draw(t, "openfile"), SaveFile: rapid.Bool().Draw(t, "savefile")}
+	// a picture-rich package: media named image<N> with N past one digit (image9 next to image10, image99 next to
+	// image100, numbers kept after deletions), ten and more pictures (sometimes past 16 / 32 / 64), counting from 0 or 1
+	numbered := rapid.IntRange(0, 7).Draw(t, "nummedia") == 0
+	if numbered {
+		foreign.AddNumberedMedia(t, &c.Pkg)
+	}
+	// a document of many sections: header1..headerN / footer1..footerN with N past one digit, sometimes parts called
+	// headerfirst.xml / footereven.xml (the names the library itself would choose)
+	manyHF := rapid.IntRange(0, 15).Draw(t, "manyhf") == 0
+	if manyHF {
+		foreign.AddHeaderFooterFamily(t, &c.Pkg)
+	}
 	// inline OMML formulas between the runs of some paragraphs (a sentence with a formula in it): the text
 	// carried by the runs next to a formula is body text like any other
 	if rapid.SampledFrom([]bool{false, true, false}).Draw(t, "math") {
@@ -124,6 +142,9 @@ func genCase(t *rapid.T) Case {
 		c.Ops = cfg.History(t, 1, kit.Scale(8, 14))
 		if rapid.IntRange(0, 2).Draw(t, "imgtail") == 0 { // several pictures in a row: the image counter matters
 			n := rapid.IntRange(1, 3).Draw(t, "nimgtail")
+			if rapid.IntRange(0, 11).Draw(t, "longimgtail") == 0 { // ten and more new pictures in one session
+				n = rapid.IntRange(9, 12).Draw(t, "nlongimgtail")
+			}
 			for i := 0; i < n; i++ {
 				c.Ops = append(c.Ops, cfg.OpOf(t, "image"))
 			}
@@ -171,7 +192,7 @@ func genCase(t *rapid.T) Case {
 	// the package brings header/footer parts of its own (named header<N>.xml / footer<N>.xml like the library's): set a
 	// header or footer of some kind after opening, in a third of these cases with the package's header/footer
 	// relationships spelled in another legal way than the bare file name
-	if c.Pkg.Has(foreign.FHeaderFooter) && rapid.SampledFrom([]bool{true, false, false}).Draw(t, "hfextra") {
+	if c.Pkg.HeaderFooterCount() > 0 && (rapid.SampledFrom([]bool{true, false, false}).Draw(t, "hfextra") || manyHF) {
 		if spell := rapid.SampledFrom([]string{"", "", "/word/", "./"}).Draw(t, "hfspell"); spell != "" {
 			for i, r := range c.Pkg.DocRels {
 				if (r.Type == foreign.RelHeader || r.Type == foreign.RelFooter) && !strings.Contains(r.Target, "/") {
@@ -180,6 +201,9 @@ func genCase(t *rapid.T) Case {
 			}
 		}
 		n := rapid.IntRange(1, 2).Draw(t, "nhfextra")
+		if manyHF {
+			n = rapid.IntRange(1, 4).Draw(t, "nhfextramany")
+		}
 		for i := 0; i < n; i++ {
 			k := rapid.SampledFrom([]string{"header", "footer"}).Draw(t, "hfextrakind")
 			c.Ops = append(c.Ops, ops.Op{K: k, I: []int{rapid.IntRange(0, 2).Draw(t, "hfextratype")}, S: []string{"set after open"}})
@@ -206,6 +230,62 @@ func genCase(t *rapid.T) Case {
 			} else {
 				c.Ops = append(c.Ops, ops.Op{K: "image", Img: &im, I: []int{0, 0, 0, 0}, F: []float64{10, 10}, S: []string{"", "", ""}})
 			}
+		}
+	}
+	// the package has media named image<N>: whatever number the library continues with, the pictures added now must not
+	// land on one of those names. Add a run of pictures of the formats the existing names have: either all of the format
+	// of one of them, or - counting on from one of the existing numbers (or from the number of media, or from 0) - each of
+	// the format of the name that a counter standing there would produce next.
+	if nm := c.Pkg.NumberedMedia(); len(nm) > 0 && (numbered || rapid.IntRange(0, 5).Draw(t, "aimnumbered") == 0) {
+		nums := make([]int, 0, len(nm))
+		for k := range nm {
+			nums = append(nums, k)
+		}
+		sort.Ints(nums)
+		hi := nums[len(nums)-1]
+		limit := rapid.SampledFrom([]int{1, 2, 3, 3, 4, 12}).Draw(t, "naimed")
+		var fmts []string
+		if rapid.Bool().Draw(t, "aimsame") {
+			f := fmtOfExt(nm[rapid.SampledFrom(append(nums, hi)).Draw(t, "aimat")])
+			for i := 0; i < limit && i < 4; i++ {
+				fmts = append(fmts, f)
+			}
+		} else {
+			starts := []int{0, c.Pkg.MediaCount(), len(nums)}
+			for _, k := range nums {
+				starts = append(starts, k, k+1)
+			}
+			from := rapid.SampledFrom(starts).Draw(t, "aimfrom")
+			for k := from; k <= hi && len(fmts) < limit; k++ {
+				if ext, ok := nm[k]; ok {
+					fmts = append(fmts, fmtOfExt(ext))
+				} else {
+					fmts = append(fmts, rapid.SampledFrom([]string{"png", "jpeg", "gif"}).Draw(t, "aimfill"))
+				}
+			}
+		}
+		haveTable := false
+		for _, f := range fmts {
+			im := gen.Img{Fmt: f, W: rapid.IntRange(1, 8).Draw(t, "aw"), H: rapid.IntRange(7, 9).Draw(t, "ah"), Pat: rapid.IntRange(0, 1<<20).Draw(t, "apat"), Name: "added." + f}
+			if rapid.IntRange(0, 4).Draw(t, "aimcell") == 0 {
+				if !haveTable {
+					c.Ops = append(c.Ops, ops.Op{K: "table", I: []int{2, 2, 0}})
+					haveTable = true
+				}
+				c.Ops = append(c.Ops, ops.Op{K: "cellimg", I: []int{0, 0, 0}, F: []float64{10}, Img: &im})
+			} else {
+				c.Ops = append(c.Ops, ops.Op{K: "image", Img: &im, I: []int{0, 0, 0, 0}, F: []float64{10, 10}, S: []string{"", "", ""}})
+			}
+		}
+	}
+	// a second document object (opened from the same package, a new document, or another package) that is edited and
+	// saved while the judged one is in use: its calls are spread over the history, in order
+	if rapid.IntRange(0, 5).Draw(t, "otherdoc") == 0 {
+		at := 0
+		for _, o := range genOther(t) {
+			at = rapid.IntRange(at, len(c.Ops)).Draw(t, "odat")
+			c.Ops = append(c.Ops[:at], append([]ops.Op{o}, c.Ops[at:]...)...)
+			at++
 		}
 	}
 	return c
@@ -376,6 +456,10 @@ func run(c Case) *kit.Result {
 	defer os.RemoveAll(dir)
 
 	feats := append(c.Pkg.Features(), c.Pkg.MathFeatures()...)
+	has := map[string]bool{} // the features, computed once (Package.Has renders every media part on each call)
+	for _, f := range feats {
+		has[f] = true
+	}
 	for _, f := range feats {
 		res.Label("pkg:" + f)
 	}
@@ -383,6 +467,32 @@ func run(c Case) *kit.Result {
 		if strings.HasPrefix(r.Target, "./") {
 			res.Label("pkg:rel:dot-slash-target")
 			break
+		}
+	}
+	if nm := c.Pkg.NumberedMedia(); len(nm) > 0 {
+		hi := -1
+		for k := range nm {
+			if k > hi {
+				hi = k
+			}
+		}
+		if hi >= 10 {
+			res.Label("pkg:media:number>=10")
+			for k := range nm {
+				if k < hi && fmt.Sprint(k) > fmt.Sprint(hi) {
+					res.Label("pkg:media:lower-number-sorts-after-highest") // image9 next to image10
+					break
+				}
+			}
+		}
+		if hi >= 100 {
+			res.Label("pkg:media:number>=100")
+		}
+	}
+	if n := c.Pkg.MediaCount(); n >= 10 {
+		res.Label("pkg:media:count>=10")
+		if n >= 17 {
+			res.Label("pkg:media:count>=17")
 		}
 	}
 	for _, tf := range c.TextForms {
@@ -454,6 +564,7 @@ func run(c Case) *kit.Result {
 	imagesAdded := 0
 	rejected := 0
 	var accepted []ops.Op // the calls the library accepted, in order: only these are edits
+	od := &otherDoc{P: P, pkgBytes: pb}
 	for i, op := range c.Ops {
 		res.Label("op:" + op.K)
 		replaced := x.Replaced
@@ -464,6 +575,8 @@ func run(c Case) *kit.Result {
 				doLookup(x.Doc, op)
 			case isLocal(op.K):
 				e = doLocal(x, op)
+			case isOther(op.K):
+				e = od.do(op)
 			default:
 				e = x.Do(op)
 			}
@@ -540,11 +653,32 @@ func run(c Case) *kit.Result {
 		if len(accepted) == 0 {
 			res.Label("edits:all-rejected")
 		}
-		if c.Pkg.Has(foreign.FNotes) && hasOp(c, "rmfootnote", "rmendnote") {
+		if has[foreign.FNotes] && hasOp(c, "rmfootnote", "rmendnote") {
 			res.Label("edits:note-removal-on-package-with-notes")
 		}
 	}
-	if len(c.Ops) == 0 {
+	if od.doc != nil {
+		res.Label("edits:second-document-object")
+		if od.samePkg {
+			res.Label("edits:second-document-object-of-same-package")
+		}
+	}
+	if n := c.Pkg.HeaderFooterCount(); n >= 10 {
+		res.Label("pkg:header-footer-parts>=10")
+		if hasOp(c, "header", "footer", "headerpn", "footerpn", "fheader", "ffooter") {
+			res.Label("edits:header-footer-set-on-package-with>=10")
+		}
+	}
+	if len(c.Pkg.Body) > 16 {
+		res.Label("pkg:body-children>16")
+		if len(c.Pkg.Body) > 64 {
+			res.Label("pkg:body-children>64")
+		}
+	}
+	if len(c.Pkg.DocRels) >= 10 {
+		res.Label("pkg:main-relationships>=10")
+	}
+	if countOps(c, "odopen", "odimage", "odpara", "odheader", "odsave") == len(c.Ops) { // calls on the other object are no edits of this one
 		res.Label("edits:none")
 	} else {
 		res.Label("edits:some")
@@ -586,7 +720,16 @@ func run(c Case) *kit.Result {
 	}
 	if imagesAdded > 0 {
 		res.Label("edits:images-added")
-		if c.Pkg.Has(foreign.FMediaOtherHighest) {
+		if imagesAdded >= 9 {
+			res.Label("edits:images-added>=9")
+		}
+		for k := range c.Pkg.NumberedMedia() {
+			if k >= 10 {
+				res.Label("edits:images-added-to-package-with-media-numbered>=10")
+				break
+			}
+		}
+		if has[foreign.FMediaOtherHighest] {
 			res.Label("edits:images-added-below-other-parts-media")
 		}
 	}
@@ -596,7 +739,7 @@ func run(c Case) *kit.Result {
 			break
 		}
 	}
-	if c.Pkg.Has(foreign.FHeaderFooter) && hasOp(c, "header", "footer", "headerpn", "footerpn", "fheader", "ffooter") {
+	if has[foreign.FHeaderFooter] && hasOp(c, "header", "footer", "headerpn", "footerpn", "fheader", "ffooter") {
 		res.Label("edits:header-footer-set-on-package-with-own")
 	}
 
@@ -747,6 +890,7 @@ func run(c Case) *kit.Result {
 			res.Fail("C04.N4", "media part %q is gone after save (same bytes now under %q)", name, where)
 		}
 	}
+	od.report(res)
 	// ---- N5: text carried by runs
 	items, perr := bodyItems(P.Parts["word/document.xml"])
 	if perr != nil {
@@ -787,13 +931,13 @@ func run(c Case) *kit.Result {
 			special = true
 		}
 	}
-	if hasNestedRun(c.Pkg) {
+	if has[foreign.FHyperlink] || has[foreign.FSmartTag] || has[foreign.FIns] || has[foreign.FInlineSdt] {
 		res.Label("feat:nested-run")
 	}
-	if c.Pkg.Has(foreign.FIDsGapped) || c.Pkg.Has(foreign.FIDsNamed) {
+	if has[foreign.FIDsGapped] || has[foreign.FIDsNamed] {
 		res.Label("feat:non-dense-ids")
 	}
-	if c.Pkg.Has(foreign.FPrefixCustom) || c.Pkg.Has(foreign.FPrefixDefault) {
+	if has[foreign.FPrefixCustom] || has[foreign.FPrefixDefault] {
 		res.Label("feat:custom-prefix")
 	}
 	res.Nontrivial = extra >= 2 && special
@@ -813,15 +957,6 @@ func openCats() map[string]bool {
 }
 
 func typeTail(t string) string { return t[strings.LastIndex(t, "/")+1:] }
-
-func hasNestedRun(p foreign.Package) bool {
-	for _, f := range []string{foreign.FHyperlink, foreign.FSmartTag, foreign.FIns, foreign.FInlineSdt} {
-		if p.Has(f) {
-			return true
-		}
-	}
-	return false
-}
 
 // lostHint names the first w:t of the package description whose text is missing at its place in the
 // saved text (diagnostics only; the verdict above does not depend on it).
@@ -891,7 +1026,7 @@ func relatedFrom(Q *opc.Package, name string) string {
 func TestC04(t *testing.T) {
 	kit.Main(t, kit.Spec[Case]{
 		ID: "C04", Level: "exploration",
-		Rule: "a generated foreign package (independent writer: namespace prefixes, extra parts with own relationship parts, external relationships, id shapes, media names, nested runs, multi-w:t runs, tables, section breaks; in a third of the packages inline OMML formulas - m:oMath / m:oMathPara, one or two per paragraph, between the text runs or inside a run container, m: or another prefix declared on the document element or on the formula) x an edit history between Open/OpenFromMemory and Save/ToBytes: none (about 10 %), or 1-8 (thorough 1-14) generated edit calls, optionally read-only style-manager lookups, header/footer calls on packages that bring header/footer parts (their relationship targets also spelled /word/x or ./x), and - when the package holds image<K> media that the main part does not relate to - pictures of the formats that a counter looking only at the main part would write under those names; in half of the cases 1-3 calls the library may reject, anywhere in the history (RemoveFootnote/RemoveEndnote with ids the package has or lacks, RemoveParagraphAt/RemoveElementAt inside and outside the body, AddImageFromFile of a missing file / a file that is no image, AddCellImageFromData / AddImageFromData with bytes that are no image, header/footer calls with a type that is none of default/first/even, SetPageSettings with nil / out-of-range / valid settings, CreateMultiLevelList, SetFootnoteConfig(nil)); in two thirds of the packages the XML text of extra parts is re-spelled (no declaration, declaration and root on one line, CRLF, byte order mark, white space before the root's end tag, newline after it); " +
+		Rule: "a generated foreign package (independent writer: namespace prefixes, extra parts with own relationship parts, external relationships, id shapes, media names, nested runs, multi-w:t runs, tables, section breaks; in a third of the packages inline OMML formulas - m:oMath / m:oMathPara, one or two per paragraph, between the text runs or inside a run container, m: or another prefix declared on the document element or on the formula) x an edit history between Open/OpenFromMemory and Save/ToBytes: none (about 10 %), or 1-8 (thorough 1-14) generated edit calls, optionally read-only style-manager lookups, header/footer calls on packages that bring header/footer parts (their relationship targets also spelled /word/x or ./x), and - when the package holds image<K> media that the main part does not relate to - pictures of the formats that a counter looking only at the main part would write under those names; in half of the cases 1-3 calls the library may reject, anywhere in the history (RemoveFootnote/RemoveEndnote with ids the package has or lacks, RemoveParagraphAt/RemoveElementAt inside and outside the body, AddImageFromFile of a missing file / a file that is no image, AddCellImageFromData / AddImageFromData with bytes that are no image, header/footer calls with a type that is none of default/first/even, SetPageSettings with nil / out-of-range / valid settings, CreateMultiLevelList, SetFootnoteConfig(nil)); in two thirds of the packages the XML text of extra parts is re-spelled (no declaration, declaration and root on one line, CRLF, byte order mark, white space before the root's end tag, newline after it); in an eighth of the packages a family of media named image<N> with N past one digit (image1..image10-13, rarely ..17/33/65; image9|image10, image99|image100 and the like; 2-5 numbers from 0..130) followed by 1-4 (rarely 12) pictures of the formats those names have; in a sixteenth header1..headerN / footer1..footerN with N = 10..17 followed by 1-4 header/footer calls; one package in forty with a long body (up to 72 block-level children); in a sixth of the cases a second document object (same package, new document, other package) that receives calls alternating with those on the judged document; " +
 			"non-trivial = package has >= 2 extra parts and at least one of {external relationship, run nested in hyperlink/ins/smartTag/sdt, run with several w:t, media name the library would not choose, relationship ids that are not the dense rId1..N}; " +
 			"distinct = distinct (feature set of the package, sequence of (op kind, outcome), entry points)",
 		Gen: genCase, Run: run, Findings: findings, Fixed: fixedCases,
@@ -902,12 +1037,15 @@ func TestC04(t *testing.T) {
 			"parts an accepted edit rewrites by design (the header/footer part the package's sections reference for the kind that is set, numbering after a list call, footnotes/endnotes after a note call, settings after SetFootnoteConfig, docProps after a properties call) join the regenerated set and are not compared",
 			"the edits never touch content that came with the package, except an ACCEPTED RemoveParagraphAt/RemoveElementAt, after which the text clause is not evaluated; the text clause demands strict document order (text that moved is lost at its place)",
 			"a refused Open or a failed Save loses nothing and is counted, not judged",
+			"calls on a second document object are no edits of the judged document; when the second object was opened from the same package, the media of the package are held to N4 in its output too",
 		},
 		MustSee: map[string]float64{"pkg:" + foreign.FExtRel: 0.05, "feat:nested-run": 0.05, "pkg:" + foreign.FMultiT: 0.05, "pkg:" + foreign.FMediaOddName: 0.05,
 			"feat:non-dense-ids": 0.05, "edits:some": 0.5, "feat:custom-prefix": 0.1, "edits:images-added": 0.1,
 			"pkg:" + foreign.FMediaOtherHighest: 0.15, "edits:images-added-below-other-parts-media": 0.1, "edits:style-lookup": 0.15, "op:pstyle": 0.02, "op:customstyle": 0.01,
 			"pkg:" + foreign.FMathTopTextOne: 0.1, "pkg:" + foreign.FMathTextTwo: 0.03, "pkg:" + foreign.FMathOnly: 0.05, "pkg:" + foreign.FMathPara: 0.05,
 			"edits:header-footer-set-on-package-with-own": 0.1, "pkg:rel:dot-slash-target": 0.01,
+			"pkg:media:number>=10": 0.08, "pkg:media:lower-number-sorts-after-highest": 0.06, "pkg:media:number>=100": 0.005, "pkg:media:count>=10": 0.02, "edits:images-added-to-package-with-media-numbered>=10": 0.06,
+			"pkg:header-footer-parts>=10": 0.03, "edits:header-footer-set-on-package-with>=10": 0.03, "pkg:body-children>16": 0.005, "pkg:main-relationships>=10": 0.05, "edits:second-document-object-of-same-package": 0.04,
 			"edits:some-rejected": 0.25, "rejected:rmfootnote": 0.1, "rejected:rmendnote": 0.04, "rejected:rmparaat": 0.02, "rejected:rmelemat": 0.02, "rejected:imagefilebad": 0.03, "rejected:pagesettings": 0.02, "rejected:cellimgbad": 0.02, "edits:none": 0.05,
 			"edits:note-removal-on-package-with-notes": 0.05, "pkg:text:respelled": 0.3, "pkg:text:crlf": 0.05, "pkg:text:bom": 0.05, "pkg:text:nodecl": 0.05, "pkg:text:nl-before-root-end": 0.05},
 	})
